@@ -308,3 +308,12 @@ func (server *SugarDB) VerifKeyExtraction(argv []string) (read, write, channels 
 	}
 	return r.ReadKeys, r.WriteKeys, r.Channels, nil
 }
+
+// VerifRaftStats returns the raft statistics of this node (nil when the node is
+// not in a cluster).
+func (server *SugarDB) VerifRaftStats() map[string]string {
+	if !server.isInCluster() || server.raft == nil {
+		return nil
+	}
+	return server.raft.VerifStats()
+}
